@@ -266,6 +266,25 @@ PROPS.update({
     },
 })
 
+PROPS.update({
+    "C17": {
+        "level_text": "Model checking of one real StripedSequence object inside embedded CPython: explicit-state BFS by re-execution on fresh Python objects (quick: all operation sequences to depth 3; thorough: to the fixpoint of the canonical key, depth 8) for 8 sequences x 3 motif families (create->normalize->log_odds, integer-valued ScoringMatrix, create().pssm with -inf cells; widths 3/7/15/40) x 3 forced dispatcher arms over {calculate, scan(3 thresholds x block 1/3/256) drained, max, argmax, threshold, copy, memoryview held, other-alphabet calculate, scanner held across reuse}; every transition compared with a pure-Python reference. Plus complete product enumerations of the stateless entry points (create incl. all short DNA sequence sets, CountMatrix, normalize x log_odds(background, base), ScoringMatrix, pvalue/score x {meme, tfmpvalue} against the core library, reverse_complement/max_score, load of generated and bundled files through 7-11 source kinds) and a 156-entry argument-error menu with child-process isolation for entries that may hang or abort.",
+        "level_note": "Trusted: refmodel.py (f64 scores with recursive-summation bound, exact for integer matrices; (count+pseudo)/total -> f/b -> log_base with (K+3)/(K+6)-rounding tolerances; own file writers); for p-values the core library is the oracle by the wording of the statement. BFS key is model-derived (Python exposes no look-ahead-row accessor). An abort inside a non-isolated space shows as a shard crash (machinery), not an attributed violation. NaN / +inf cells, block size 0, zero-width motifs, p outside (0,1): only no-panic / no-hang is demanded. Buffer details and negative indices are C18's.",
+        "technique": "explicit-state BFS by re-execution over Python-visible reuse histories of one striped sequence + bounded-exhaustive product enumeration of stateless entry points and an argument-error menu, against pure-Python reference models / the core library",
+        "level": "model_checking",
+        "package": "vx-py", "engine": "vx-py",
+        "profiles": ["rel"],
+        "wall": {"quick": 150, "thorough": 1200},
+        "rule": "histories: state = canonical key of a re-executed history, transition = one Python operation executed on fresh objects and compared with the reference (evaluations = transitions); product spaces: one evaluation = one menu point (pvalue: one query; load: one (file, source)); errors: one (entry, arm); non-trivial per the space descriptions; distinct by construction of the deterministic index.",
+        "assumptions": COMMON_ASSUMPTIONS + [
+            "a StripedSequence's mutable state is (content, look-ahead rows); rows only grow; the growth order is kept in the key; a scores object is a function of (sequence, motif) by the check on the transition that created it",
+            "a valid background whose f32 sum is not exactly 1 may be rejected (acceptance not demanded); a non-zero wildcard background cannot be honoured by WeightMatrix.log_odds (wildcard column not compared then)",
+            "hit order and arg-max ties are free; positions within the summation bound of a threshold are undecided; when L < M, max() may be None or -inf",
+            "dictionary keys outside the alphabet are invalid arguments (the library's own pseudocount/background dictionaries reject them)",
+        ],
+    },
+})
+
 # properties not claimed (with reason); kept current as checks are added
 NOT_APPLICABLE = [
     {"property_id": p, "reason": "check not built yet in this round (planned in DESIGN.md section 2); not claimed until its harness exists"}
